@@ -176,6 +176,25 @@ fn judge<G: CurveTag>(
             ("deserialize_compressed", R1CSProof::<G>::deserialize_compressed(bytes).ok()),
             ("deserialize_compressed_unchecked", R1CSProof::<G>::deserialize_compressed_unchecked(bytes).ok()),
             ("Vec::deserialize_compressed", Vec::<R1CSProof<G>>::deserialize_compressed(&container[..]).ok().and_then(|mut v| v.pop())),
+            ("Vec::deserialize_compressed (two members)", {
+                let mut c2 = (2u64).to_le_bytes().to_vec();
+                c2.extend_from_slice(bytes);
+                c2.extend_from_slice(bytes);
+                Vec::<R1CSProof<G>>::deserialize_compressed(&c2[..]).ok().and_then(|mut v| v.pop())
+            }),
+            ("Option::deserialize_compressed", {
+                let mut o = vec![1u8];
+                o.extend_from_slice(bytes);
+                Option::<R1CSProof<G>>::deserialize_compressed(&o[..]).ok().flatten()
+            }),
+            ("empty containers", {
+                // containers without a single proof in them (validated decode must cope)
+                let _ = Vec::<R1CSProof<G>>::deserialize_compressed(&[0u8; 8][..]);
+                let _ = Option::<R1CSProof<G>>::deserialize_compressed(&[0u8][..]);
+                let _ = Vec::<Option<R1CSProof<G>>>::deserialize_compressed(&[2u8, 0, 0, 0, 0, 0, 0, 0, 0, 0][..]);
+                let _ = Vec::<Vec<R1CSProof<G>>>::deserialize_compressed(&[1u8, 0, 0, 0, 0, 0, 0, 0, 0, 0, 0, 0, 0, 0, 0, 0][..]);
+                None
+            }),
             ("deserialize_uncompressed", R1CSProof::<G>::deserialize_uncompressed(bytes).ok()),
             ("deserialize_uncompressed_unchecked", R1CSProof::<G>::deserialize_uncompressed_unchecked(bytes).ok()),
             // the uncompressed form of whatever the bytes decode to, decoded again
@@ -425,7 +444,60 @@ pub fn replay(sub: &str, bytes: &[u8], col: &mut Collector) -> Result<(), Failur
         let c = GridCase::decode(bytes).ok_or_else(|| Failure::new("machinery:replay", "bad grid case", json!(null)))?;
         return dispatch_grid(&c, col);
     }
+    if sub == "c08/containers" && bytes.len() == 5 {
+        let (m, l) = ((bytes[1] as usize) << 8 | bytes[2] as usize, (bytes[3] as usize) << 8 | bytes[4] as usize);
+        return with_curve!(Curve::ALL[bytes[0] as usize % 3], G => container_case::<G>(m, l, col));
+    }
     dispatch(sub, bytes, col)
+}
+
+/// A container of proofs: `members` copies of a small valid proof and one member whose two
+/// inner-product lists hold `long` (valid) points each. Decoding it, validated, must neither
+/// panic nor use memory out of proportion to the input.
+fn container_case<G: CurveTag>(members: usize, long: usize, col: &mut Collector) -> Result<(), Failure> {
+    use ark_serialize::{CanonicalDeserialize, CanonicalSerialize};
+    let fx = fixture::<G>(1, 0);
+    let small = fx.proof.to_bytes().unwrap();
+    let mut m = fx.mirror.clone();
+    let pt = fx.mirror.A_I1;
+    m.ipp.L = vec![pt; long];
+    m.ipp.R = vec![pt; long];
+    let big = m.to_bytes();
+    let at = members / 2;
+    let mut bytes = ((members + 1) as u64).to_le_bytes().to_vec();
+    for i in 0..=members {
+        bytes.extend_from_slice(if i == at { &big } else { &small });
+    }
+    let what = || json!({"curve": G::CURVE.name(), "members": members + 1, "long_member_rounds": long, "input_bytes": bytes.len()});
+    let (r, peak) = measure(|| guarded(|| Vec::<R1CSProof<G>>::deserialize_compressed(&bytes[..]).map(|v| v.len())));
+    match r {
+        Err(p) => return Err(Failure::new("C08:container-decode-panic", format!("decoding a container of {} proofs panicked: {}", members + 1, p), what())),
+        Ok(Ok(n)) if n != members + 1 => return Err(Failure::new("C08:container-decode", format!("container of {} proofs decoded to {} proofs", members + 1, n), what())),
+        _ => {}
+    }
+    let bound = 64 * bytes.len() + 64 * 1024;
+    if peak > bound {
+        return Err(Failure::new(
+            "C08:container-decode-memory",
+            format!("decoding a container of {} proofs ({} bytes) reached {} live heap bytes (> 64*len + 64KiB = {})", members + 1, bytes.len(), peak, bound),
+            what(),
+        ));
+    }
+    // the same through the unchecked entry point and a re-encoding
+    let r2 = guarded(|| {
+        let v = Vec::<R1CSProof<G>>::deserialize_compressed_unchecked(&bytes[..]).ok()?;
+        let mut out = vec![];
+        v.serialize_compressed(&mut out).ok()?;
+        Some(out == bytes)
+    });
+    match r2 {
+        Err(p) => return Err(Failure::new("C08:container-decode-panic", format!("unchecked decoding / re-encoding of a container panicked: {}", p), what())),
+        Ok(Some(false)) => return Err(Failure::new("C08:container-roundtrip", "a container of proofs does not re-encode to its bytes".to_string(), what())),
+        _ => {}
+    }
+    col.class("container-of-proofs");
+    col.nontrivial(fp_of(&(G::CURVE, members, long)));
+    Ok(())
 }
 
 pub fn run(tier: &str, seed: u64) -> i32 {
@@ -456,6 +528,24 @@ pub fn run(tier: &str, seed: u64) -> i32 {
         let sub = format!("c08/{}", c.name());
         rep.outcome.merge(replay_corpus("C08", &sub, &|b, col| dispatch(&sub, b, col)));
         rep.outcome.merge(search(&sub, seed, n, 900, &|b, col| dispatch(&sub, b, col)));
+    }
+    // containers of proofs (empty, many members, one member with long lists)
+    if rep.outcome.found.is_empty() {
+        let curves: Vec<Curve> = if tier == "thorough" { Curve::ALL.to_vec() } else { vec![Curve::ALL[((seed + 1) % 3) as usize]] };
+        let mut items = vec![];
+        for c in curves {
+            for (members, long) in [(0usize, 0usize), (1, 3), (2, 64), (40, 33), (300, 3000), (1000, 200), (17, 9000)] {
+                items.push((c, members, long));
+            }
+        }
+        let mut o = enumerate(
+            "c08/containers",
+            &items,
+            &|(c, m, l)| vec![c.index() as u8, (*m >> 8) as u8, *m as u8, (*l >> 8) as u8, *l as u8],
+            &|(c, m, l), col| with_curve!(*c, G => container_case::<G>(*m, *l, col)),
+        );
+        o.exhaustive = false;
+        rep.outcome.merge(o);
     }
     for c in ["|L|<|R|", "|L|>|R|", "|L|=log2(padded),|R| differs", "object:decodes", "mutated-encoding:decodes", "raw:format-error"] {
         rep.required_classes.push((c.to_string(), 0.002));
